@@ -439,6 +439,11 @@ Proof.
     destruct (Nat.leb (nobj s) o0); cbn [fst] in Hs'; [subst s'; exact HI|].
     destruct (is_running_obj _ _ _ _) as [[r ob'] ru']. cbn [fst] in Hs'. subst s'.
     apply (Inv_frame _ s); [exact HI|reflexivity|intros p Hp; exact Hp|cbn; lia].
+  - (* PidExistsF *)
+    cbn [gupd]. cbn [step] in Hs'.
+    destruct (n <? 0); cbn [fst] in Hs'; [subst s'; exact HI|].
+    destruct (_ || _); cbn [fst] in Hs'; [|subst s'; exact HI].
+    destruct (pids_sorted (listing (tbl s))) as [[l low]| |]; cbn [fst] in Hs'; subst s'; exact HI.
 Qed.
 
 Lemma Inv_init valid : Inv valid (init, fun _ => gh_none).
